@@ -966,6 +966,12 @@ class state( dict ):
                 nxt		= tab[sym]
                 if sym is None:
                     sym		= True
+                elif encoder and states.get( nxt ) is None and states[pre].get( True ) is None \
+                     and len( list( encoder( sym ))) > 1:
+                    # A multi-symbol transition into a dead state, and no live wildcard to fall back
+                    # on: refuse its first encoded symbol, instead of consuming the leading symbols.
+                    states[pre][next( iter( encoder( sym )))] = None
+                    continue
                 elif encoder:
                     # Add intervening states for Done; fall thru and link up the last newly added
                     # state to the 'nxt'.  No new states added or linked if only one symbol results.
